@@ -17,6 +17,12 @@ func walkCase(o *Out, r *Rng, prop string, opts docOpts, mutate func(*Rng, *gSch
 		class = mutate(r, s, g, d)
 	}
 	root, w, qi := newWorld(s, g)
+	gSharedErr = prop == "C06" && r.Chance(40)
+	defer func() { gSharedErr = false }()
+	if gSharedErr {
+		o.Count("failing resolvers return one shared *ggql.Error")
+		gSentinelErr.Path, gSentinelErr.Line, gSentinelErr.Column = nil, 0, 0
+	}
 	opName := ""
 	switch c := r.Intn(10); {
 	case c < 6:
